@@ -1,6 +1,7 @@
 import M3d.Basic
 import M3d.Model.CodecIO
 import M3d.Model.CodecSpec
+import M3d.Model.CodecRound
 /-! Line-protocol handler for C15 (codec round trips). Core-only. -/
 namespace M3d.Drv.C15
 open M3d M3d.Codec M3d.Codec.IO
@@ -34,6 +35,23 @@ def handleStlAscii (ws : List String) : Option String := do
     | .ok rs => showRecs32 rs
     | .error _ => "error"
   some (showHex bytes ++ " " ++ dec)
+
+/-- `stlr <n> {12 decimal tokens, hex}` : ASCII STL text to the specification whose numbers are the
+given decimal literals (any number of digits), then the STL reader with `parseF32` — the exact
+fraction of the literal rounded ONCE to binary32 (`M3d.C15.f32_round_nearest_even`) — as number parser.
+A file all of whose numbers are out of the binary32 range is outside the format: `ovf`. -/
+def handleStlRound (ws : List String) : Option String := do
+  let fs ← run (pCounted (pMany pBytes 12)) ws
+  let toks := fs.flatten
+  let recs : List Rec := (List.range fs.length).map fun j =>
+    (List.range 12).map fun k => UInt32.ofNat (12 * j + k)
+  let bytes := stlAsciiSpec (fun i => toks.getD i missing) recs
+  if !toks.isEmpty && toks.all overflowsF32 then some (showHex bytes ++ " ovf")
+  else
+    let dec := match stlDecode parseF32 bytes with
+      | .ok rs => showRecs32 rs
+      | .error _ => "error"
+    some (showHex bytes ++ " " ++ dec)
 
 /-- `plys <header> <nrows> {row} ft…` : PLYWriter bytes, then NewPLYReader + Read until EOF. -/
 def handlePlyStream (ws : List String) : Option String := do
@@ -118,6 +136,7 @@ def handleAll (ws : List String) : Option String :=
   match ws with
   | "stl" :: rest => handleStl rest
   | "stla" :: rest => handleStlAscii rest
+  | "stlr" :: rest => handleStlRound rest
   | "plys" :: rest => handlePlyStream rest
   | "plym" :: rest => handlePlyMesh rest
   | "csv" :: rest => handleCsv rest
